@@ -155,7 +155,8 @@ fn check_name(rep: &Report, name: &str) {
         let leftmost = t.split('.').next().unwrap_or("").to_ascii_lowercase();
         let tail = &name[name.trim_end_matches(JUNK).len()..];
         let trailing_dot = tail.contains('.');
-        let stem_evtx = leftmost == "evtx" && exp.0 == Rd::Evtx;
+        // the bare stem `evtx` is still misread once all junk is stripped
+        let stem_evtx = leftmost == "evtx" && exp.0 == Rd::Evtx && classify(Path::new(&format!("/d/{}", t)), true) != exp;
         // canonical form: junk stripped at both ends and the stem turned into a suffix
         let canonical_agrees = classify(Path::new(&format!("/d/x.{}", t)), true) == exp;
         rep.violation(
